@@ -79,10 +79,15 @@ def decimal_host(rng):
 HEX = '0123456789abcdefABCDEF'
 
 
+V6_BOUNDARY = ['f', '10', 'ff', '100', 'fff', '1000', 'ffff', '0100', '00ff', '0010', 'FF', '1000']
+
+
 def v6_piece(rng):
     r = rng.random()
-    if r < 0.3:
+    if r < 0.25:
         return '0'
+    if r < 0.45:
+        return rng.choice(V6_BOUNDARY)        # digit-count boundaries of the serialiser'
     n = rng.choice([1, 1, 2, 3, 4, 4, 5]) if r < 0.9 else 0
     return ''.join(rng.choice(HEX) for _ in range(n)) if rng.random() < 0.7 else '0' * max(0, n - 1) + rng.choice('01fF')
 
@@ -99,7 +104,7 @@ def v6_spelling(rng):
         right = ':'.join(v6_piece(rng) for _ in range(b))
         s = left + '::' + right
         if emb:
-            v4 = '.'.join(str(rng.choice([0, 1, 9, 10, 99, 255, 256, rng.randrange(256)])) for _ in range(rng.choice([4, 4, 4, 3, 5])))
+            v4 = '.'.join(str(rng.choice([0, 1, 9, 10, 15, 16, 99, 255, 256, rng.randrange(256)])) for _ in range(rng.choice([4, 4, 4, 3, 5])))
             s = s + (':' if right else '') + v4
     else:
         k = total if rng.random() < 0.8 else rng.choice([total - 1, total + 1])
@@ -124,7 +129,7 @@ def v6_spelling(rng):
 
 def canonical_v6(rng):
     """an address rendered from 8 random pieces with a random legal compression: must parse; serialise(parse) is a fixed point"""
-    pieces = [rng.choice([0, 0, 0, 1, 0xffff, rng.randrange(65536)]) for _ in range(8)]
+    pieces = [rng.choice([0, 0, 0, 1, 0xffff, 0xf, 0x10, 0xff, 0x100, 0xfff, 0x1000, rng.randrange(65536)]) for _ in range(8)]
     return '[' + ':'.join('%x' % p for p in pieces) + ']'
 
 
